@@ -26,8 +26,11 @@ ASSUMPTIONS = [
     "xmin < xmax per variable, start inside [xmin, xmax]; per-variable bounds are numpy arrays, per-signal bounds "
     "lists or arrays with one number per signal",
     "every generated problem has a strictly feasible point; MMA parameters a0, a, d keep their defaults, c = cCoef",
-    "convergence is a finite-horizon claim (DESIGN section 4): asserted only for maxit >= 40, asymptote parameters "
-    "in a neighbourhood of the defaults and an oracle optimum whose multipliers are far below c (exact penalty)",
+    "end of run is a finite-horizon claim (DESIGN section 4), made only for runs with >= 40 iterations, asymptote "
+    "parameters near the defaults and an oracle optimum whose multipliers are < 0.1 c (exact penalty): constraints "
+    "<= 1e-3 at the last iterate; distance to the optimum <= 5e-3 (reciprocal objective) / 5e-2 (diagonal quadratic) "
+    "of the range and below the initial distance; no distance claim for log-sum-exp objectives (MMA without "
+    "globalisation zig-zags there: up to 0.39 of the range after 50 iterations on the unchanged tree)",
     "trusted base: numpy, scipy.optimize.minimize(SLSQP) as candidate generator for the optimum (accepted only "
     "after this file's own KKT test), Hypothesis",
 ]
@@ -39,7 +42,7 @@ MOVE_FORMS = ["scalar", "npscalar", "per_signal_list", "per_signal_arr", "per_va
 
 
 def budget(tier):
-    return {"examples": 160 if tier == "quick" else 3200, "shards": 16, "shrink": 60 if tier == "quick" else 300}
+    return {"examples": 140 if tier == "quick" else 3000, "shards": 16, "shrink": 20 if tier == "quick" else 100}
 
 
 def strategy(tier):
